@@ -156,7 +156,9 @@ fn scenario(chooser: Chooser, cfg: &Cfg, faults: bool, track: bool) -> (Chooser,
             Beh::Nothing => e.knows = Some(vec![]),
             Beh::Next8 | Beh::Insecure => {}
             Beh::Everything => {
-                e.k = m;
+                // (as many as a datagram carries: 70 compact nodes are 1820 bytes; a longer list
+                // would be an oversize datagram the reader rightly cannot decode)
+                e.k = m.min(70);
                 e.knows = Some(order.iter().cloned().filter(|x| sole_witness.is_none() || *x != order[0]).collect());
             }
             Beh::FartherOnly => e.knows = Some(order[rank_i + 1..].to_vec()),
@@ -169,7 +171,7 @@ fn scenario(chooser: Chooser, cfg: &Cfg, faults: bool, track: bool) -> (Chooser,
             }
             Beh::Silent => e.silent = true,
             Beh::ValueSoleWitness => {
-                e.k = m;
+                e.k = m.min(if cfg.kind == 4 { 26 } else { 60 });
                 e.knows = None;
                 e.peers.insert(target, vec![SocketAddrV4::new(std::net::Ipv4Addr::new(44, 4, 4, 4), 444)]);
                 if cfg.kind == 3 {
